@@ -125,6 +125,12 @@ def c_costed(c):
     # write-back of this loop goes to the first node of that name)
     c.pre("node_names_unique", ForAll([a_, b_], Implies(And(P.alloc0(a_), P.alloc0(b_), archmodel.is_concrete(P, a_), archmodel.is_concrete(P, b_), Select(nm0, a_) == Select(nm0, b_)), a_ == b_)))
     c.pre("every_component_already_costed", ForAll([o], Implies(And(P.alloc0(o), archmodel.is_a(P, o, "Component")), requested_marked(c, o, flags, heap0))))
+    # a kind recorded as calculated has its per-instance value set (what the first call establishes: C26's
+    # postconditions `value set` + `requested_kinds_are_recorded_as_calculated`); the totals are recomputed from it
+    m0 = lambda o_: Select(ex.heap_arrays("_costs_calculated", heap0)[0], o_)
+    isnone0 = lambda f, o_: Select(ex.heap_arrays(f, heap0)[0], o_)
+    c.pre("calculated_values_are_set", ForAll([o], Implies(And(P.alloc0(o), archmodel.is_a(P, o, "Component")),
+          And(Implies(Select(m0(o), P.elem_of_str("area")), Not(isnone0("area", o))), Implies(Select(m0(o), P.elem_of_str("leak")), Not(isnone0("leak_power", o)))))))
 
     def unchanged(fields):
         def f_(res=None):
